@@ -13,6 +13,10 @@ def dump(state_name: str, order: list[str]) -> dict:
             from . import poison
             poison.stir()
             continue
+        if m == "USE":                       # ... or use it the ordinary, successful way (bridges on several port lists, clients)
+            from . import poison
+            poison.use()
+            continue
         importlib.import_module("aioswitcher." + m)
     from aioswitcher import api, bridge
     from aioswitcher.device import (DeviceCategory, DeviceState, DeviceType, ShutterDirection, SwitcherPowerPlug, SwitcherShutter,
